@@ -334,7 +334,7 @@ def oracle_C10(hi, ops, obs):
             out.append(Viol(hi, b['h'], 'duplicate-identity', f"ops={ops_seen} keys={keys_seen}"))
         # creating / deleting / keeping applications changes no set, power or supply
         votes_absent = any(a for (_, _, a) in ob['votes'])
-        if only_queue_ops and prev.get('pool') and not votes_absent and prev['vals'] and not b['upd']:
+        if only_queue_ops and prev.get('pool') and not votes_absent and not ob.get('evid') and prev['vals'] and not b['upd']:
             if b['pool'][2] != prev['pool'][2]:
                 out.append(Viol(hi, b['h'], 'supply-moved-by-queue-op', f"{prev['pool'][2]} -> {b['pool'][2]}"))
         if out: break
@@ -462,6 +462,25 @@ def oracle_C15(hi, ops, obs):
             for lf in leaves:
                 if lf.kind != 'CREATE': continue
                 rate, maxr, maxc = int(lf.args[7]), int(lf.args[8]), int(lf.args[9])
+                # operator and consensus key unused (judged against the previous block's validators and pending list)
+                cop, ckey = int(lf.args[0]), int(lf.args[1])
+                # applications removed or admitted by earlier successful transactions of this block no longer count
+                freed = set()
+                for i2, tx2 in enumerate(ob['txs'][:i]):
+                    if i2 < len(b['txr']) and b['txr'][i2] == 'ok':
+                        for m2 in tx2['msgs']:
+                            for l2 in m2.flat():
+                                if l2.kind in ('RMPENDING', 'SETPOWER') and l2.args and l2.args[0].lstrip('-').isdigit():
+                                    freed.add(int(l2.args[0]))
+                pend_prev = [x for x in (prev.get('pend') or []) if int(x[0]) not in freed]
+                # a validator record that still exists after the block (not matured away in it)
+                live_vals = {o: v for o, v in prev['vals'].items() if o in b['vals']}
+                used_ops = set(live_vals.keys()) | set(int(x[0]) for x in pend_prev)
+                used_keys = set(v['key'] for v in live_vals.values()) | set(int(x[1]) for x in pend_prev)
+                if prev['vals'] and cop in used_ops:
+                    out.append(Viol(hi, b['h'], 'operator-in-use-accepted', f"tx {i} operator {cop}"))
+                elif prev['vals'] and ckey >= 0 and ckey in used_keys:
+                    out.append(Viol(hi, b['h'], 'consensus-key-in-use-accepted', f"tx {i} key {ckey}"))
                 if rate < minc:
                     out.append(Viol(hi, b['h'], 'rate-below-chain-minimum-accepted', f"tx {i} rate {rate} minimum {minc}"))
                 elif not (0 <= rate <= maxr <= E18 and 0 <= maxc <= maxr):
